@@ -22,7 +22,7 @@
 (***************************************************************************)
 EXTENDS ReplicationDB, Json
 
-CONSTANTS MaxTx, MaxFail, MaxRestart, SyncRepl, Acks, AllowDiscard, WithReroute,
+CONSTANTS MaxTx, MaxFail, MaxRestart, SyncRepl, Acks, AllowDiscard, WithReroute, Rejoin,
           ReportInMem, SkipPrecommitCheck, SkipReplicaAlhCheck, DiscardKeepsAllowance,
           RecordSched, EmitDepth, First
 
@@ -194,7 +194,7 @@ PromoteStep(n) ==
 
 \* server.UpdateDatabase: stop the replicator, AsReplica (the allowance falls back to the committed tx), start a new replicator
 SwitchStep(r, p) ==
-  /\ p \in LivePrimaries /\ r # p /\ follows[r] # p /\ (role[r] = "replica" \/ lost[r])
+  /\ p \in LivePrimaries /\ r # p /\ follows[r] # p /\ (role[r] = "replica" \/ (Rejoin /\ lost[r]))
   /\ Switch(r, p, SyncRepl)
   /\ lost' = [lost EXCEPT ![r] = FALSE] /\ running' = [running EXCEPT ![r] = TRUE] /\ lastTx' = [lastTx EXCEPT ![r] = 0]
   /\ pc' = [pc EXCEPT ![r] = "idle"] /\ ans' = [ans EXCEPT ![r] = NoAns] /\ allow' = [allow EXCEPT ![r] = com[r]]
